@@ -16,14 +16,16 @@ def main():
     t0 = time.time()
     parser = SqParser()
     param = spec.get("param") or {}
-    cx = mod.Ctx(parser, param.get("L", 5), param.get("slice", "full"), timeout=spec["timeout"])
+    cx = mod.Ctx(parser, param.get("L", param.get("W", 5)), param.get("slice", "full"), timeout=spec["timeout"])
     for k, v in param.items():
         setattr(cx, k, v)
     out = {"id": spec.get("id")}
     try:
         res = mod.QUERIES[spec["fn"]](cx, list(spec.get("excludes") or []))
-    except mod.lrc.Cycle as e:
-        res = {"verdict": "INCONCLUSIVE", "why": "cyclic unit derivation in the grammar: " + str(e)}
+    except Exception as e:
+        if type(e).__name__ not in ("Cycle", "Unsupported"):
+            raise
+        res = {"verdict": "INCONCLUSIVE", "why": "encoder cannot cover this code: %s: %s" % (type(e).__name__, e)}
     out.update(res)
     out["twin"] = "sat"        # token constraints alone are satisfiable by construction (any string over the alphabet)
     out["message"] = res.get("what", "")
